@@ -495,6 +495,23 @@ pub fn gen_project(rng: &mut Rng, o: &ProjectOpts) -> Project {
     if outside {
         documents_globs.push("../shared/**/*.graphql".into());
     }
+    // overlapping patterns: one of the files is also named on its own, before or after the
+    // wildcard pattern that matches it anyway (it is one input, loaded once)
+    let mut schema_globs = schema_globs;
+    {
+        let mut r_ov = rng.fork("overlapping_patterns");
+        if r_ov.chance(1, 8) && !schema_paths.is_empty() && schema_globs.iter().any(|g| g.contains('*')) {
+            let p = format!("{dot}{}", r_ov.pick(&schema_paths[..]));
+            if r_ov.chance(1, 2) { schema_globs.insert(0, p) } else { schema_globs.push(p) }
+        }
+        if r_ov.chance(1, 8) && ops.len() >= 2 {
+            let f = &ops[r_ov.below(ops.len())].path;
+            if !f.starts_with("..") {
+                let p = format!("{dot}{f}");
+                if r_ov.chance(1, 2) { documents_globs.insert(0, p) } else { documents_globs.push(p) }
+            }
+        }
+    }
 
     let mode = *r_cfg.pick(&["with-loader-ts-5.0", "with-loader-ts-4.0", "standalone-ts-4.0"]);
     let mut g = serde_json::Map::new();
